@@ -632,7 +632,9 @@ static void d23_case()
 template <class T, class Pool>
 static void pool_containers(const char* what, std::size_t node_size, Rng& g, long nops)
 {
-    Pool pool(node_size, node_size * 40 + 64);
+    // blocks far larger than the largest array the scenario asks for (the bucket array of at most 1201 pointers): a pool refuses
+    // an array above next_capacity() with bad_array_size, which is its documented behaviour and not what is examined here
+    Pool pool(node_size, std::size_t(1) << 16);
     {
         list<T, Pool>                lst(pool);
         set<T, Pool>                 st(pool);
